@@ -238,7 +238,7 @@ func (p *Program) verifyFunc(key string, mode string) (u *Unit) {
 		for _, en := range ens {
 			// quantified clauses of functions with several returns are checked per return
 			// site (smaller queries, the failing path is named)
-			if hasQuantExpr(en.E) && len(f.rets) > 2 && len(f.rets) <= 16 {
+			if (hasQuantExpr(en.E) || p.callsQuantSpec(en.E, 0)) && len(f.rets) > 2 && len(f.rets) <= 16 {
 				for ri, r := range f.rets {
 					pe := f.funcEnv(r.st, st)
 					for k, v := range post.vars {
@@ -641,4 +641,24 @@ func smtLemmaUnit(p *Program, verif, name string) *Unit {
 	u.Enc = e
 	e.addObl(&Obligation{Name: "smt-lemma:" + name, Kind: "lemma", Func: "smt-lemma:" + name, Text: "hand-posed lemma " + name + " (solver string theory)", Raw: string(data), Pos: "contracts/lemmas/" + name})
 	return u
+}
+
+// callsQuantSpec: does the expression apply a spec function whose body has a quantifier?
+func (p *Program) callsQuantSpec(e *Expr, depth int) bool {
+	if e == nil || depth > 4 {
+		return false
+	}
+	if e.Op == "call" && len(e.Args) > 0 && e.Args[0].Op == "id" {
+		if sf, ok := p.Specs[e.Args[0].Name]; ok && sf.Body != nil {
+			if hasQuantExpr(sf.Body) || p.callsQuantSpec(sf.Body, depth+1) {
+				return true
+			}
+		}
+	}
+	for _, a := range e.Args {
+		if p.callsQuantSpec(a, depth) {
+			return true
+		}
+	}
+	return false
 }
